@@ -623,7 +623,7 @@ impl Cluster {
                     false,
                 ))
             }
-            Choice::Propose { n, p } => self.simple_call(n, "Propose", json!({ "p": p }), |r| {
+            Choice::Propose { n, p } => self.simple_call(n, "Propose", json!({ "p": p, "sz": p.len() }), |r| {
                 r.propose(vec![], p.clone().into_bytes())
             }),
             Choice::ProposeBatch { n, ents } => {
@@ -639,11 +639,17 @@ impl Cluster {
                         e
                     })
                     .collect();
+                let views: Vec<EntryV> = es.iter().map(entry_view).collect();
                 m.set_entries(es.into());
-                self.simple_call(n, "ProposeBatch", json!({ "ents": ents }), |r| r.step(m))
+                self.simple_call(n, "ProposeBatch", json!({ "ents": views }), |r| r.step(m))
             }
             Choice::ProposeConf { n, v1, tr, ch } => {
-                let a = json!({"v1": v1, "tr": tr, "ch": ch});
+                let sz = if v1 {
+                    make_cc_v1(ch.first()?).write_to_bytes().unwrap().len()
+                } else {
+                    make_cc_v2(&tr, &ch).write_to_bytes().unwrap().len()
+                };
+                let a = json!({"v1": v1, "tr": tr, "ch": ch, "sz": sz});
                 if v1 {
                     let cc = make_cc_v1(ch.first()?);
                     self.simple_call(n, "ProposeConf", a, |r| r.propose_conf_change(vec![], cc))
